@@ -84,6 +84,22 @@ def write_replay(pid, n, failure, extra=""):
     return path
 
 
+def write_witness_replay(pid, w, failed_obligations):
+    os.makedirs(REPLAY, exist_ok=True)
+    h = hashlib.sha256((pid + w["ops"] + w["msg"]).encode()).hexdigest()[:10]
+    path = os.path.join(REPLAY, "%s-witness-%s.txt" % (pid, h))
+    with open(path, "w") as f:
+        f.write("property: %s\n" % pid)
+        f.write("failing input (operation sequence on a new Arena, node numbers are creation order, 0-based):\n")
+        f.write("witness ops: %s\n" % w["ops"])
+        f.write("observed on the real code (%s): %s\n" % (w.get("build", ""), w["msg"]))
+        f.write("replay: /verif/check --replay %s   (re-runs this sequence against /repo through the public API)\n\n" % path)
+        f.write("obligations the verifier failed on this tree:\n")
+        for o in failed_obligations[:20]:
+            f.write("  - %s\n" % o)
+    return path
+
+
 def decide(pid, tier, seed):
     t0 = time.time()
     props = load_properties()
@@ -103,17 +119,19 @@ def decide(pid, tier, seed):
         bad = set()
         for t in tools:
             f = gi.func_at(t["line"]) if t["line"] else None
-            if f and f["mode"] == "exec" and not f["external_body"] and ("not supported" in t["message"] or "unsupported" in t["message"].lower()
+            changed_code = f is not None and g["splice"]["functions"].get(f["name"], {}).get("status") == "transplanted"
+            if f and f["mode"] == "exec" and not f["external_body"] and (changed_code or "not supported" in t["message"]
+                                                                          or "unsupported" in t["message"].lower()
                                                                           or "does not yet support" in t["message"]):
+                # either Verus cannot read a construct of the body, or the body changed so much that
+                # the ghost text no longer fits it (a ghost name is out of scope, a type no longer matches)
                 bad.add(f["name"])
         if not bad or not tools:
             break
         quarantined = sorted(set(quarantined) | bad)
     if quarantined:
         notes.append("functions taken out because Verus cannot read their bodies (unsupported construct): " + ", ".join(quarantined))
-        hit = [q for q in quarantined if any(f["name"] == q and pid in f["props"] for f in gi.funcs)]
-        if hit:
-            raise P.Undecided("unsupported construct in %s, which carries obligations of %s" % (", ".join(hit), pid))
+        # (properties tagged on a quarantined function are decided by the witness step below, or stay undecided)
     if r["summary"] is None:
         raise P.Undecided("verus produced no summary: " + " ".join(r["stderr_other"][-5:]))
     if tools:
@@ -205,6 +223,22 @@ def decide(pid, tier, seed):
         if thorough_extra.get("unstable"):
             raise P.Undecided("proof unstable under a different solver seed/rlimit: " + ", ".join(thorough_extra["unstable"]))
         mine += thorough_extra.get("failures", [])
+    # ---- witness step: only when the verifier has failed something on this tree
+    any_fail = fails + undischarged + [{"obligation": "function %s could not be read by the verifier" % q} for q in quarantined]
+    witness = None
+    explore_cov = {}
+    weak_only = False
+    if any_fail or mine:
+        ex = P.explore(seed=seed or 1, budget_ms=12000 if tier == "quick" else 60000)
+        explore_cov = {"witness_search": {"what": "bounded exploration of the real crate through its public API (tools/replay): every sequence of up to 3 "
+                                                  "structural operations on 2-4 nodes, generation-counter scenarios, random walks; one executable oracle "
+                                                  "per property; run only because the verifier failed an obligation; labelled bounded, never counted as proof",
+                                          "runs": ex["runs"], "wall_s": ex.get("wall_s"),
+                                          "witnesses_found_for": sorted(set(p for vv in ex["violations"] for p in vv["props"]))}}
+        for vv in ex["violations"]:
+            if pid in vv["props"]:
+                witness = vv
+                break
     # known findings
     violations = []
     for x in mine:
@@ -213,9 +247,20 @@ def decide(pid, tier, seed):
             print("KNOWN-FINDING: property=%s %s" % (pid, kf[0]["what"]))
         else:
             violations.append(x)
+    specific = [x for x in violations if x.get("specific")]
     replay_paths = []
-    for n, x in enumerate(violations):
-        replay_paths.append(write_replay(pid, n, x))
+    report = []
+    if witness:
+        # a concrete failing input, replayed against the real code
+        pth = write_witness_replay(pid, witness, [x["obligation"] for x in any_fail])
+        report = [({"obligation": (specific or violations or any_fail)[0]["obligation"]}, pth, True)]
+    elif specific:
+        report = [(x, write_replay(pid, n, x), False) for n, x in enumerate(specific)]
+    elif violations or any(q for q in quarantined if any(f["name"] == q and pid in f["props"] for f in gi.funcs)):
+        weak_only = True
+    violations = [r[0] for r in report]
+    replay_paths = [r[1] for r in report]
+    has_witness = bool(witness)
     ev = {
         "property_id": pid,
         "tier": tier,
@@ -259,13 +304,23 @@ def decide(pid, tier, seed):
     }
     ev["coverage"].update(thorough_extra.get("coverage", {}))
     ev["coverage"].update(mp_cov)
+    ev["coverage"].update(explore_cov)
     os.makedirs(EVID, exist_ok=True)
     json.dump(ev, open(os.path.join(EVID, pid + ".json"), "w"), indent=1)
     if violations:
         for x, pth in zip(violations, replay_paths):
             print("failed obligation: %s" % x["obligation"])
-            print("VIOLATION property=%s replay=%s no-failing-input-found" % (pid, pth))
+            if has_witness:
+                print("failing input: %s  -> %s" % (witness["ops"], witness["msg"]))
+                print("VIOLATION property=%s replay=%s" % (pid, pth))
+            else:
+                print("VIOLATION property=%s replay=%s no-failing-input-found" % (pid, pth))
         return 1
+    if weak_only:
+        print("UNDECIDED property=%s: the proof of a function that carries obligations of %s no longer goes through (%s), but no obligation written "
+              "from this property failed and the bounded witness search found no input violating it" % (
+                  pid, pid, "; ".join(sorted(set(x["obligation"] for x in mine))[:3])))
+        return 2
     print("%s: %d obligations in %d functions and lemmas discharged by Verus (%.1fs solver, %s)" % (
         pid, total, len(funcs), solver_s, "cached" if r.get("cached") else "%.1fs wall" % r["wall_s"]))
     return 0
@@ -365,6 +420,16 @@ def main(argv):
         return 2
     if argv[1] == "--write-baseline":
         return write_baseline()
+    if argv[1] == "--replay":
+        txt = open(argv[2]).read()
+        m = re.search(r"^witness ops: (.*)$", txt, re.M)
+        if not m:
+            print(txt)
+            print("(this replay file carries the verifier's output only: no failing input was found)")
+            return 0
+        ex = P.explore(replay_ops=m.group(1))
+        print(json.dumps(ex, indent=1))
+        return 1 if ex["violations"] else 0
     pid = argv[1]
     tier = os.environ.get("VERIF_TIER", "quick")
     if "--tier" in argv:
